@@ -73,6 +73,41 @@ def native_replay(unit, replay_path):
     return False, out
 
 
+def native_differential(unit):
+    """thorough tier: the real functions against an independent native reference
+    over an exhaustively enumerated boundary domain (redundant evidence)"""
+    exe = build_replay(unit)
+    if exe is None:
+        return dict(unit=unit, status='no-driver')
+    env = dict(os.environ, ASAN_OPTIONS='detect_leaks=0', VERIF_SEED=os.environ.get('VERIF_SEED', '1'))
+    t = time.time()
+    try:
+        r = subprocess.run([exe, '--exhaustive'], stdout=subprocess.PIPE, stderr=subprocess.PIPE, text=True, timeout=1800, env=env)
+    except subprocess.TimeoutExpired:
+        return dict(unit=unit, status='timeout')
+    m = re.search(r'native differential: (\d+) evaluations, (\d+) disagreements', r.stdout)
+    confirmed = [l for l in r.stdout.split('\n') if l.startswith('CONFIRMED')]
+    return dict(unit=unit, status='ran', evaluations=int(m.group(1)) if m else 0, disagreements=int(m.group(2)) if m else -1,
+                first=confirmed[:3], seconds=round(time.time() - t, 1), sanitizer_fault=('AddressSanitizer' in r.stderr or 'runtime error' in r.stderr),
+                stderr_tail=r.stderr[-800:])
+
+
+def build_replay(unit):
+    src = os.path.join(VERIF, 'replay', unit + '.cpp')
+    if not os.path.exists(src):
+        return None
+    exe = os.path.join(BUILD, unit, 'replay_' + unit)
+    os.makedirs(os.path.dirname(exe), exist_ok=True)
+    newest = max(os.path.getmtime(src), newest_mtime(os.path.join(REPO, 'include')))
+    if not os.path.exists(exe) or os.path.getmtime(exe) < newest:
+        cmd = ['g++', '-std=c++17', '-O1', '-g', '-fsanitize=address,undefined', '-fno-sanitize-recover=undefined',
+               '-fno-access-control', '-I' + os.path.join(REPO, 'include'), '-I' + VERIF, src, '-o', exe]
+        rc, so, se, t = sh(cmd, timeout=900, mem_gb=64)
+        if rc != 0:
+            return None
+    return exe
+
+
 def newest_mtime(d):
     m = 0
     for root, _, files in os.walk(d):
@@ -151,10 +186,15 @@ def run_property(pid, tier, seed, t0):
                 results.append(r)
     if errors:
         raise errors[0]
-    return judge(pid, tier, seed, t0, builds, results)
+    nd = []
+    if tier == 'thorough':
+        for ub, fns in builds:
+            if ub.spec.native_differential:
+                nd.append(native_differential(ub.spec.name))
+    return judge(pid, tier, seed, t0, builds, results, nd)
 
 
-def judge(pid, tier, seed, t0, builds, results):
+def judge(pid, tier, seed, t0, builds, results, nd=()):
     fsmap = {}
     ubmap = {}
     for ub, fns in builds:
@@ -249,9 +289,15 @@ def judge(pid, tier, seed, t0, builds, results):
         rec['native'] = dict(status='confirmed' if ok else ('not-confirmed' if ok is False else 'no-driver'), output=out)
         json.dump(rec, open(rp, 'w'), indent=1)
         violations.append((fn, o, rp, ok))
+    for d in nd:
+        if d.get('status') == 'ran' and (d.get('disagreements', 0) != 0 or d.get('sanitizer_fault')):
+            os.makedirs(rdir, exist_ok=True)
+            rp = os.path.join(rdir, 'native_differential.%s.json' % d['unit'])
+            json.dump(dict(property=pid, unit=d['unit'], function='native-differential', obligation=dict(id='native-differential', label='real code vs independent reference', description='; '.join(d.get('first') or [d.get('stderr_tail', '')])), native=dict(status='confirmed', output='\n'.join(d.get('first', [])))), open(rp, 'w'), indent=1)
+            violations.append(('native-differential', dict(id='native-differential', label=None, description='; '.join(d.get('first') or ['sanitizer fault'])), rp, True))
     write_evidence(pid, tier, seed, t0, dict(builds=builds, results=results, proved=proved, bounded=bounded, failures=failures,
                                               cross=cross, vac=(vac_hit, vac_total), violations=violations, known_lines=known_lines,
-                                              fsmap=fsmap))
+                                              fsmap=fsmap, nd=list(nd)))
     for l in known_lines:
         print(l)
     nob = len(proved)
@@ -347,6 +393,7 @@ def write_evidence(pid, tier, seed, t0, S, undecided=None):
                           method='second build with assert(0) at every marked return and at the harness end; each must FAIL')
     cov['solver_time_s'] = solver_time
     cov['cross_check'] = S['cross']
+    cov['native_differential'] = S.get('nd', [])
     cov['explanation'] = ' | '.join(explanation) if explanation else 'see DESIGN.md section 5 for %s' % pid
     cov['known_findings'] = S['known_lines']
     ev['assumptions'] = assumptions
